@@ -137,3 +137,28 @@ Proof.
   - repeat split; auto.
   - codes. cbn. repeat split; auto; try discriminate. intros [X|[X|X]]; discriminate X.
 Qed.
+
+(* ---- tie of the claim-creation step to the regenerated error test of newConsumerGroupClaim (DecC07.claim_start) ----
+   The model's inputs a1 / a2 say whether a ConsumePartition attempt fails for a reason other than the offset; what
+   ConsumePartition answers is then fixed by chooseStartingOffset: nil inside the log, ErrOffsetOutOfRange (EK 1) outside. *)
+Definition consume_result (lo hi : Z) (ok : bool) (e : gerr) (o : Z) : gerr :=
+  if ok then (if in_range o lo hi then ENil else EK 1) else e.
+
+Theorem tie_claim_start cf pom lo hi a1 a2 e1 e2 :
+  gerr_eqb e1 ENil = false -> gerr_eqb e1 (EK 1) = false -> gerr_eqb e2 ENil = false ->
+  let o := next_offset cf pom in
+  let script := [(tt, consume_result lo hi a1 e1 o); (tt, consume_result lo hi a2 e2 (c_initial cf))] in
+  match claim_start o script (c_initial cf) with
+  | (off, _, ExFall) => claim_try cf pom lo hi a1 a2 = Some off          (* the claim exists, InitialOffset = off *)
+  | (_, _, ExReturn (_, err)) => claim_try cf pom lo hi a1 a2 = None /\ err <> ENil   (* no claim: the error is returned *)
+  | _ => False
+  end.
+Proof.
+  intros H1 H2 H3. unfold claim_start, claim_try, consume_result, pop. cbn.
+  destruct a1; cbn.
+  - destruct (in_range (next_offset cf pom) lo hi); cbn; [reflexivity|].
+    destruct a2; cbn.
+    + destruct (in_range (c_initial cf) lo hi); cbn; [reflexivity|]. split; [reflexivity|discriminate].
+    + rewrite H3. cbn. split; [reflexivity|]. intros ->. discriminate H3.
+  - rewrite H2, H1. cbn. split; [reflexivity|]. intros ->. discriminate H1.
+Qed.
